@@ -198,7 +198,7 @@ def run(ctx):
                         "a dispatcher that holds the old table and sends to a destination whose relay loop has exited after DelRoute/DelDestination blocks: outside this model, see DESIGN known findings"]
     ctx.prepare()
     ctx.lean(["Crng.Props.C18"], ["Crng.Props.C18.isolation", "Crng.Props.C18.ops_refine_list", "Crng.Props.C18.deleteInPlace_breaks"],
-             ties=["Crng.Tie.C18"])
+             ties=["Crng.Tie.C18", common.CODE_TABLEOPS])
     ctx.stream("table-ops", "tableops", cases(ctx.rng("c18"), ctx.scale(400, 8000), ctx.scale(30, 60)), monitor=monitor, spec_exact=True,
                removable=lambda l: not l.startswith(("idioms", "new", "views")),
                classify=lambda l, o: "snaps=%d" % sum(1 for x in l if x == "snap"))
